@@ -106,6 +106,44 @@ theorem accept_sound (c : Cfg) (hc : c.pinned = false) (ty : Ty) (j : J) (v : Va
   | slice t => simp at h
   | map t => simp at h
 
+/-
+NOT PROVEN (full statement kept here, see `range_exact` and `dep_exact` for the parts that are):
+
+  theorem accept_complete (c : Cfg) (hc : c.pinned = false) (ty : Ty) (j : J)
+      (hwt : WellTyped c ty j)                       -- every supplied value has the JSON type its field expects
+      (hsat : ∃ v, satisfies c ty j v = true) :      -- all declared constraints are met
+      ∃ v, unmarshal c ty j = .ok v
+
+What is missing: a declarative `WellTyped` (int syntax and bit size per kind, string-encoded values under
+`string`/WithStringValues, arrays under WithFromArray) and the converse of every primitive path
+(`primWithValue`, `elemValue`, `mapElemValue`), including that a finite number inside the declared range never
+overflows float64.  Proven below: the two constraint tests themselves are exact — the range test accepts
+exactly the numbers inside the range (`range_exact`) and the dependency resolution succeeds exactly when the
+declared dependency holds (`dep_exact`).  Completeness of the real code is exercised only by the differential
+harness (the model accepts ⇔ the implementation accepts, on every generated line).
+-/
+
+/-- **range_exact** (part of the converse direction) — on the repaired code the range test accepts a finite number
+exactly when it lies inside the declared range, open and closed ends respected. -/
+theorem range_exact (c : Cfg) (hc : c.pinned = false) (r : Range) (d : Dec) :
+    rangeRejects c r (.fin d) = false ↔ Range.contains r d = true := by
+  constructor
+  · intro h
+    obtain ⟨d', hd, hcont⟩ := rangeRejects_false hc h
+    cases hd; exact hcont
+  · exact rangeRejects_of_contains hc
+
+/-- **dep_exact** (part of the converse direction) — `optional` / `optional=dep` / `optional=!dep` are resolved without
+error exactly when the declared dependency holds on the input, and then to the declared optionality. -/
+theorem dep_exact (o : Opts) (key : Str) (m : Obj) :
+    (∃ b, effOptional o key m = .ok b) ↔ depOK o key m = true := by
+  constructor
+  · rintro ⟨b, hb⟩; exact (effOptional_spec hb).1
+  · intro h; exact ⟨_, effOptional_of_depOK h⟩
+
+example : Range.contains ⟨⟨1, 0⟩, true, ⟨5, 0⟩, false⟩ ⟨45, -1⟩ = true ∧ Range.contains ⟨⟨1, 0⟩, true, ⟨5, 0⟩, false⟩ ⟨5, 0⟩ = false := by
+  decide
+
 /-- **no_panic** — no input makes the (repaired) unmarshaller panic: for every type whose tag texts do not make
 `parseKeyAndOptions` index an empty segment list (`tagsOK`; the only offender is a tag value that is a lone
 escape character), every configuration and every input document, the model never reaches a Go panic.
